@@ -45,22 +45,29 @@ CHECKS["C06"] = dict(
     design="§6 C06")
 
 CHECKS["C01"] = dict(
-    technique="Coq proof by induction over trees that pruning = explicit marginalisation over all state assignments and rate categories (any tree, any state count, any matrices); symbol tables regenerated from source and proved to be IUPAC unions; Paramcoq free theorem + interval-run correspondence at TreeLikelihoodModel()",
-    text="Theorems C01_pruning_is_marginalisation / C01_site_likelihood_is_marginal / C01_loglik_is_marginal / "
-         "C01_compress_sum / C01_*_symbols_are_unions / C01_tip_state_is_indicator / C01_tip_unknown_is_missing "
-         "(prop/C01.v): for every indexed binary tree, state count, matrix family, rate-category mixture and alignment "
-         "the model's log-likelihood equals the weighted sum over patterns of ln of the sum over every assignment of "
-         "states and every category; the datatype tables regenerated from datatype.py map each of the 128 symbols to "
-         "the indicator of its IUPAC set. C01_run_encloses_model: the interval run encloses the real value. The model "
-         "(index assignment by taxon name, sequence lookup by name, compression, which matrix goes with which node, "
-         "zero root branch, clock x branch x category rate) is tied to the code by correspondence at the value returned "
-         "by a TreeLikelihoodModel built from JSON (relative 1e-9) over all topologies <= 4 (quick) / <= 6 (thorough) "
-         "taxa plus random ones and all model/site/clock/tip combinations of the nucleotide models.",
-    note="Trusted: Coq kernel; hand-written models (validated by correspondence only); T1 translator; the transition "
-         "matrices, frequencies and category rates/probabilities enter as oracle tables read through the implementation's "
-         "public API (C04/C05 cover them); amino-acid/codon/general alphabets: tables proved (amino acids) but likelihood "
-         "correspondence runs nucleotide models only; the array loop of the code is modelled by structural recursion on "
-         "the indexed tree (equivalence checked by correspondence, not proved); torch rounding modelled not verified.",
+    technique="Coq proof by induction over trees that pruning = explicit marginalisation over all state assignments and rate categories (any tree, any state count, any matrices); the ARRAY LOOP of the code — update expression and returned expression regenerated from tree_likelihood.py by an ast translator — proved to compute that recursion for every soundly numbered tree; symbol tables regenerated from source and proved to be IUPAC unions; Paramcoq free theorem + interval-run correspondence at TreeLikelihoodModel()",
+    text="Theorems (prop/C01.v): C01_pruning_is_marginalisation / C01_site_likelihood_is_marginal / C01_loglik_is_marginal / "
+         "C01_compress_sum / C01_*_symbols_are_unions / C01_tip_state_is_indicator / C01_tip_unknown_is_missing: for every "
+         "indexed binary tree, state count, matrix family, rate-category mixture and alignment the model's log-likelihood "
+         "equals the weighted sum over patterns of ln of the sum over every assignment of states and every category; the "
+         "datatype tables regenerated from datatype.py map each of the 128 symbols to the indicator of its IUPAC set. "
+         "C01_array_loop_is_pruning: the loop `for node, left, right in post_indexing: partials[node] = ...` with the update "
+         "regenerated from calculate_treelikelihood_discrete on every run leaves the recursion's value at the root index, for "
+         "every tree with a sound numbering (C01_indexing_is_sound: setup_indexes' numbering is sound), any number type; "
+         "C01_returned_expression (regenerated) and C01_tip_state_loop_is_tip_partial_loop (regenerated tip-state update). "
+         "C01_run_encloses_model: the interval run encloses the real value. The rest of the model (index assignment by taxon "
+         "name, sequence lookup by name, compression, which matrix goes with which node, zero root branch, clock x branch x "
+         "category rate) is tied to the code by correspondence at the value returned by a TreeLikelihoodModel built from JSON "
+         "(relative 1e-9) over all topologies <= 4 (quick) / <= 6 (thorough) taxa plus random ones and all model/site/clock/"
+         "tip combinations, trees written with their lengths in the newick string, same-object histories (evaluate, assign "
+         "parameters, evaluate; time trees also as plain TimeTreeModel) against freshly built objects, and two 560/640-taxon "
+         "trees on which the plain recursion underflows (first and later evaluation).",
+    note="Trusted: Coq kernel; hand-written models (validated by correspondence only); T1 and T8 translators (fail-closed ast); "
+         "the transition matrices, frequencies and category rates/probabilities enter as oracle tables read through the "
+         "implementation's public API (C04/C05 cover them); torch.matmul broadcasting over categories and site columns is "
+         "modelled (one category, one pattern at a time); the rescaled / 'safe' variants of the loop are covered by C03's "
+         "theorem on the model and by correspondence, not regenerated; amino-acid likelihoods: few cases; torch rounding "
+         "modelled not verified.",
     design="§6 C01")
 
 CHECKS["C03"] = dict(
